@@ -167,14 +167,16 @@ PROPS = {
     ),
     "C08": dict(
         pkg="c08", level="exploration",
-        tests=[T("TestC08", Q(2000, timeout=400), Q(8000, timeout=1500, shards=16, shrinktime="60s"))],
+        tests=[T("TestC08", Q(2000, timeout=400), Q(8000, timeout=1500, shards=16, shrinktime="60s")),
+               T("TestC08Big", Q(8, timeout=400, shrinktime="20s"), Q(40, timeout=1500, shards=6, shrinktime="60s"))],
         rule="Generated: saver history (0-6 Update calls), PrepareSnapshot, 0-3 further Update calls, SaveSnapshot; a receiver with its own unrelated history (0-4 calls, synced or not); recovery with saver and "
              "receiver formats drawn independently (snapshot/checkpoint, cross-format); one of: plain install, stop signal after k writer calls during save, stop signal after k reader calls during recover, "
              "crash at EVERY file-system operation boundary inside RecoverFromSnapshot (crashfs, counted as separate evaluations), a lazy range sequence obtained before the install and consumed after it, "
              "reader goroutines racing with the install. Oracle: receiver content/applied index/leader index == saver's model at prepare time; continuing with the post-prepare entries reaches the saver's state, also after reopen; "
              "stopped save => ErrSnapshotStopped and saver intact; stopped install => receiver == its pre-install model, also after reopen; crash inside install => exactly the installed state or a prefix (>= last sync) "
              "of the receiver's own log; overlapping reads: old state, new state or clean error, never a panic. Non-trivial iff writes between prepare and save AND (cross-format or interrupted), or a reader spanning the swap, "
-             "or a crash point inside the install. Distinct = sha256(case JSON [+ crash point]).",
+             "or a crash point inside the install. TestC08Big: the saver holds 18-40 MiB (more than the 16 MiB the sstable-stream format ships in one piece; several files for the checkpoint format) and Update calls between prepare and save overwrite the "
+             "first / a middle / the last key, delete and add keys and move both indices; same oracle (non-trivial always). Distinct = sha256(case JSON [+ crash point]).",
         assumptions=FSM_ASSUME + ["dragonboat documents that Lookup may run concurrently with RecoverFromSnapshot",
                                   "while KNOWN_FINDINGS lists the read-across-install finding, racing readers are not executed (counted as excluded) because they panic or hang inside pebble in schedule-dependent ways"],
         technique="property-based testing: snapshot round trip against a model, fault injection (stop signals, crash-point enumeration inside the install), deterministic and racing overlapping readers",
@@ -264,13 +266,17 @@ PROPS = {
     "C11": dict(
         pkg="c11", level="exploration", journal_cases=True,
         tests=[T("TestC11", Q(4, timeout=300, shards=4, shrinktime="5s"), Q(40, timeout=1500, shards=16, shrinktime="20s")),
-               T("TestC11RYW", Q(25, timeout=300, shards=2, shrinktime="20s"), Q(120, timeout=1500, shards=8, shrinktime="60s"))],
+               T("TestC11RYW", Q(25, timeout=300, shards=2, shrinktime="20s"), Q(120, timeout=1500, shards=8, shrinktime="60s")),
+               T("TestC11Order", Q(20000, timeout=300), Q(200000, timeout=900, shards=4))],
         rule="TestC11: timed scenarios on the real storage.IndexNotificationQueue (its own Run goroutine, hard-coded 1 s sweep): 2-12 events spread over 3.3 s on two tables - add(revision 0-6, optionally cancelled 1-2500 ms later), "
              "notify(revision 0-6), len - followed by one more sweep and a responsiveness probe; each rapid case runs 150 scenarios concurrently (evaluations = scenarios). Every waiter reads its channel once, like ForwardingKVServer. Oracle: exactly one "
              "answer; success only if a notification >= its revision for its table had started before; error only after its context ended; never a second answer; an unanswered waiter while Len(table)==0 is lost (timing-free); a waiter cancelled >2.5 s ago "
              "or notified (after its Add returned) >1 s ago must be answered; Add/Notify/Len must return within 8 s - if not, two goroutine dumps 1 s apart must show the same event-loop goroutine parked in 'chan send' (wedge witness), otherwise inconclusive. "
              "Non-trivial iff live and cancelled waiters coexist or a revision-0 waiter exists. TestC11RYW: real leader + follower engines, real ForwardingKVServer over gRPC, worker polls driven by a harness goroutine at a generated period; generated put / delete range / "
-             "txn (incl. empty executed branch) sent to the follower API, each followed immediately by a serializable read on the follower that must observe it (non-trivial iff >=1 txn with an empty executed branch or >=3 forwarded writes).",
+             "txn (incl. empty executed branch) sent to the follower API, each followed immediately by a serializable read on the follower that must observe it, with follower engine restarts (tables re-opened) between writes (non-trivial iff >=1 txn with an empty executed branch or >=3 forwarded writes). "
+             "TestC11Order: the queue as an UNTIMED state machine - Add/Notify/Len are synchronous hand-overs to the single event loop and a returned Len() proves everything handed over before has been processed, so after every step the set of answered waiters is a function of the history: "
+             "4-60 steps on two tables, add(revision 0..8/30/200 in arbitrary order), notify(non-decreasing per table), cancel(any waiter), len; oracle: a live waiter is acknowledged iff a notification >= its revision was delivered for its table, errors only for ended contexts, "
+             "no second answer, live-unanswered <= Len <= unanswered (non-trivial iff >=2 waiters registered below an already waiting higher revision).",
         assumptions=["real time is unavoidable (the sweep interval is hard-coded): every time-based judgement is one-sided and generous, a slow machine can only turn a violation into 'inconclusive'"],
         technique="property-based testing over timed event schedules with a history oracle; end-to-end read-your-writes on real engines",
         level_text="Randomised exploration of waiter/notification/cancellation schedules across >=4 sweeps; thousands of scenarios per quick run.",
